@@ -64,6 +64,13 @@ fn case_list(ctx: &Ctx) -> Vec<Case> {
         let mut r = ctx.rng("listE", j);
         v.push(Case { size: 34_000 + r.below(if j % 3 == 0 { 200_000 } else { 60_000 }), class: 17, level: (j % 11) as u8, zlib: r.bool(), boundary: false });
     }
+    // C4: rare strings recurring exactly one 16-bit position period (65536) later in low-entropy
+    // filler, lazy levels
+    let np = ctx.n(200, 3000);
+    for j in 0..np {
+        let mut r = ctx.rng("listP", j);
+        v.push(Case { size: 66_000 + r.below(if j % 3 == 0 { 200_000 } else { 30_000 }), class: 18, level: if j % 5 == 0 { (j % 11) as u8 } else { 4 + (j % 7) as u8 }, zlib: r.bool(), boundary: false });
+    }
     // D: random mid sizes, all classes
     let n = ctx.n(8000, 200_000);
     for j in 0..n {
